@@ -56,6 +56,11 @@ def coerce(c, dt):
         if isinstance(c, SBool):
             return core._int_of_bool(c)
         if isinstance(c, SFloat):
+            # a real that is the image of an integer term (int -> float -> int round trip) converts back exactly
+            import z3 as _z3
+            if core._isc(c.k) and c.k == 0 and isinstance(c.v, _z3.ExprRef) and _z3.is_app(c.v) \
+                    and c.v.decl().kind() == _z3.Z3_OP_TO_REAL:
+                return SInt.mk(c.v.arg(0))
             raise Unsupported('symbolic float stored into an integer array')
         if isinstance(c, float):
             if math.isnan(c) or math.isinf(c):
